@@ -1,0 +1,11 @@
+//go:build verif
+
+package arp_spoofer
+
+// VerifHuntLen returns the number of entries in the hunt list.
+// Verification hook: only compiled with -tags verif.
+func (h *Handler) VerifHuntLen() int {
+	h.arpMutex.Lock()
+	defer h.arpMutex.Unlock()
+	return len(h.huntList)
+}
